@@ -91,6 +91,132 @@ def check_fill_helpers(run, db):
     return n
 
 
+def _deref_of(t):
+    """(pointer term, recognised?) if t is a byte read *P / P[i]; recognised is False when the pointer is reinterpreted to a non-char type"""
+    t0 = t
+    t = sym.strip_casts(t)
+    if isinstance(t, dict) and t.get('k') == 'un' and t.get('op') == '*':
+        raw = t.get('e')
+        rec = True
+        while isinstance(raw, dict) and raw.get('k') == 'cast':
+            if 'char' not in str(raw.get('to', 'char')):
+                rec = False
+            raw = raw.get('e')
+        return t['e'], rec
+    if isinstance(t, dict) and t.get('k') == 'bin' and t.get('op') == '[]':
+        return {'k': 'bin', 'op': '+', 'l': t['l'], 'r': t['r'], 'lptr': True}, True
+    return None, True
+
+
+def check_scan(run, db):
+    """byte exactness of the two primitives everything else is built on:
+    debug_fill writes exactly [memory, memory + size) with the pattern; debug_is_filled examines every byte of [memory, memory + size)
+    in order - it answers null only where a path condition shows the examined prefix reached memory + size, and otherwise returns the
+    address of the byte whose comparison failed (the first corrupted one, because everything before it was examined)."""
+    n = 0
+    roles = {0: 'memory', 1: 'size', 2: 'm'}
+    for f in db.find(short='debug_fill'):
+        if len(f.params) != 3:
+            continue
+        n += 1
+        probs = []
+        S = [s for s in fwd.summarize(f, db=db, roles=roles, no_forward=True) if s.end == 'return']
+        for s in S:
+            sets = [c[0] for c in s.calls if c[1].get('short') == 'memset']
+            if sets != ['memset($memory,$m,$size)']:
+                loops = [b for b in f.blocks.values() if b.get('term') and b['term'].get('cls') in ('ForStmt', 'WhileStmt', 'DoStmt')]
+                if not sets and loops:
+                    run.broke('debug_fill uses a hand-written loop: shape not recognised by R-FILL.scan')
+                else:
+                    probs.append('the fill is %s, not memset(memory, pattern, size)' % (sets or 'missing'))
+        _emit(run, 'R-FILL.scan', f, db, probs, 'memset(memory, pattern, size)', {'function': 'detail::debug_fill', 'role': 'fills exactly the given bytes'})
+    for f in db.find(short='debug_is_filled'):
+        if len(f.params) != 3:
+            continue
+        n += 1
+        probs = []
+        unrec = [t.get('short') for e, t in flow.call_events(f)]
+        npaths = 0
+        for steps in fwd.trace(f, roles=roles, db=db):
+            end = [st for st in steps if st['kind'] == 'end']
+            if not end or end[-1]['end'] != 'return':
+                continue
+            npaths += 1
+            last_is_end = False     # the last decision on the path compares something with the end of the range
+            covered = {}            # linear offset from memory up to which the bytes were examined and found equal
+            reached = False         # a condition showed covered >= size
+            any_end_cond = False
+            mismatch = None
+            rec = not unrec
+            for st in steps:
+                if st['kind'] != 'br' or st['assume']:
+                    continue
+                c = sym.strip_casts(st['cond'])
+                neg = False
+                while isinstance(c, dict) and c.get('k') == 'un' and c.get('op') == '!':
+                    neg = not neg
+                    c = sym.strip_casts(c['e'])
+                ptr = None
+                if isinstance(c, dict) and c.get('k') == 'bin' and c['op'] in ('==', '!='):
+                    for side, other in ((c['l'], c['r']), (c['r'], c['l'])):
+                        p, ok = _deref_of(side)
+                        if p is not None:
+                            ptr, rec = p, rec and ok
+                            val = sym.canon(other, roles)
+                            if ok and val != '$m':
+                                probs.append('a byte is compared with %s, not with the pattern' % val[:40])
+                last_is_end = False
+                if ptr is not None:
+                    off = linear.sub(linear.lin(ptr, roles), {'$memory': 1})
+                    equal = (c['op'] == '==') == (st['taken'] != neg)
+                    if off != covered:
+                        if rec:
+                            probs.append('the byte at offset [%s] is examined while the examined prefix ends at [%s]: bytes are skipped' % (linear.fmt(off), linear.fmt(covered)))
+                        continue
+                    if equal:
+                        covered = linear._add(covered, {'': 1}, 1)
+                        reached = False
+                    else:
+                        mismatch = ptr
+                    continue
+                cmpd = linear.compare(st['cond'], st['taken'], roles)
+                if cmpd and '$size' in cmpd[0]:
+                    any_end_cond = True
+                    last_is_end = True
+                    d, op = cmpd
+                    want = linear.sub({'$size': 1}, covered)          # size - covered
+                    neg_want = {a: -v for a, v in want.items()}
+                    if (op == '==' and d in (want, neg_want)) or (op in ('<=', '<') and d == want):
+                        reached = True
+            ret = end[-1]['ret']
+            is_null = isinstance(sym.strip_casts(ret), dict) and sym.strip_casts(ret).get('null')
+            if is_null:
+                if not any_end_cond or not last_is_end:
+                    probs.append('answers "all bytes carry the pattern" on a path whose last decision is not a comparison with the end of the range: '
+                                 'nothing shows that the bytes up to memory + size were examined')
+                elif not reached:
+                    if rec:
+                        probs.append('answers "all bytes carry the pattern" although only the first [%s] of size bytes were examined on that path' % linear.fmt(covered))
+                    else:
+                        rec = None
+            elif ret is not None and rec:
+                if mismatch is None:
+                    probs.append('reports a corrupted byte (%s) on a path where no comparison failed' % sym.canon(ret, roles)[:50])
+                elif linear.lin(ret, roles) != linear.lin(mismatch, roles):
+                    probs.append('reports %s, not the address of the byte whose comparison failed (%s)' % (sym.canon(ret, roles)[:40], sym.canon(mismatch, roles)[:40]))
+            if rec is None or (not rec and not probs):
+                unrec = unrec or ['non-byte reads']
+        if npaths < 3:
+            run.broke('debug_is_filled: only %d returning path(s) traced' % npaths)
+            continue
+        if not probs and unrec:
+            run.broke('debug_is_filled uses helpers / word-wise reads (%s): shape not recognised by R-FILL.scan' % ', '.join(sorted(set(str(u) for u in unrec)))[:80])
+            continue
+        _emit(run, 'R-FILL.scan', f, db, probs, 'examines memory[0..size) byte by byte, null only at the end, otherwise the failing byte (%d paths)' % npaths,
+              {'function': 'detail::debug_is_filled', 'role': 'examines every byte of the range'})
+    return n
+
+
 def check_lowlevel(run, db):
     n = 0
     for ct, FENCE in (('detail::lowlevel_allocator', 'g:detail::max_alignment'), ('virtual_memory_allocator', 'g:virtual_memory_page_size')):
@@ -251,12 +377,13 @@ def _emit(run, rule, f, db, probs, okmsg, site):
 def run(run):
     run.rule('R-FILL.free', 'debug_fill_free structure', floor=1)
     run.rule('R-FILL.new', 'debug_fill_new structure', floor=1)
+    run.rule('R-FILL.scan', 'debug_fill writes and debug_is_filled examines exactly [memory, memory + size)', floor=2)
     run.rule('R-FENCE.lowlevel', 'fence arithmetic of the low-level allocators', floor=4)
     run.rule('R-FILL.lists', 'free lists fill on acquire and release', floor=10)
     run.rule('R-FILL.stack', 'stack fill order', floor=1)
     run.rule('R-FILL.arena', 'arena blocks marked internal / internal-freed', floor=4)
-    run.explanation = ('Byte-exactness of the fill loops and "in-bounds writes are never reported" are not decided; the structure that makes every '
-                       'fence byte checked and every handed-out byte filled is.')
+    run.explanation = ('The two byte-level primitives are decided for their recognised shapes (memset; byte scan with a cursor), every use of them by term; '
+                       '"in-bounds writes are never reported" is not decided.')
     any_fill = False
     for cfg in common.configs(run):
         if not fill_on(cfg):
@@ -265,6 +392,8 @@ def run(run):
         db = build.load_db(cfg, log=run.log)
         if check_fill_helpers(run, db) < 2:
             run.broke('debug_fill_new/free not found [%s]' % cfg)
+        if check_scan(run, db) < 2:
+            run.broke('debug_fill / debug_is_filled not found [%s]' % cfg)
         if check_lowlevel(run, db) < 3:
             run.broke('low-level allocators not found [%s]' % cfg)
         if check_lists(run, db) < 8:
